@@ -98,9 +98,13 @@ def even_promotion(cfg, rng, bad):
     n = 0
     m = int(rng.integers(7, 45))
     ce, co = dict(cfg, nphi=2 * m), dict(cfg, nphi=2 * m + 1)
-    qe, _ = build(ce, shear=True)
     qo, _ = build(co, shear=True)
     n += 1
+    try:
+        qe, _ = build(ce, shear=True)
+    except Exception as e:
+        bad('even:exception', 'Qsc(nphi=%d) raises %s: %s although nphi=%d works' % (2 * m, type(e).__name__, str(e)[:200], 2 * m + 1), nphi=2 * m)
+        return n
     if qe.nphi != 2 * m + 1:
         bad('even:nphi', 'nphi=%d was requested and the object has nphi=%d, expected %d' % (2 * m, qe.nphi, 2 * m + 1), nphi=2 * m)
         return n
@@ -312,6 +316,16 @@ def predict(cfg, rng, q=None, thorough=False, sub=None, stats=None):
     return out, n
 
 
+def safe_predict(cfg, rng, *a, **kw):
+    """an exception inside the implementation while a prediction is being checked is a violation with a replayable input, not a crash"""
+    try:
+        return predict(cfg, rng, *a, **kw)
+    except Exception as e:
+        import traceback
+        return [dict(key='exception', what='%s raised while the predictions were being checked: %s' % (type(e).__name__, str(e)[:300]), cfg=jsonable(cfg),
+                     thorough=bool(kw.get('thorough')), trace=traceback.format_exc()[-1200:])], 0
+
+
 def main():
     ap = argparse.ArgumentParser()
     for a_ in ('--mode', '--hint', '--file', '--tier'):
@@ -325,7 +339,7 @@ def main():
     if a.mode == 'replay':
         f = (json.load(open(a.file)).get('failing') or {})
         if f.get('cfg'):
-            res['violations'], res['predictions_checked'] = predict(f['cfg'], rng, thorough=bool(f.get('thorough')), sub=f.get('sub'))
+            res['violations'], res['predictions_checked'] = safe_predict(f['cfg'], rng, thorough=bool(f.get('thorough')), sub=f.get('sub'))
         print(json.dumps(res, default=str)); return
     t0 = time.time(); tried = 0
     nn = a.n if a.mode == 'check' else 10 ** 6
@@ -341,7 +355,7 @@ def main():
         key = '%s/%s/%s/nfp%d/sG%+d/spsi%+d' % ('QH' if q.helicity else 'QA', 'asym' if q.lasym else 'sym', cfg['order'], cfg['nfp'], cfg['sG'], cfg['spsi'])
         dist[key] = dist.get(key, 0) + 1
         res['configs'] += 1
-        v, n = predict(cfg, rng, q, thorough=(a.tier == 'thorough'), stats=stats)
+        v, n = safe_predict(cfg, rng, q, thorough=(a.tier == 'thorough'), stats=stats)
         res['predictions_checked'] += n; res['violations'] += v
         if len(res['samples']) < 3:
             res['samples'].append(dict(cfg=jsonable(cfg), iota=float(q.iota)))
